@@ -78,7 +78,10 @@ func DefaultCols() map[Ty][]Ident {
 	}
 }
 
-var intLits = []string{"0", "1", "2", "3", "7", "007", "0x2", "10", "1.5", ".5", "2.", "1e1", "0e0"}
+var intLits = []string{"0", "1", "2", "3", "7", "007", "0x2", "10", "1.5", ".5", "2.", "1e1", "0e0", "18446744073709551616", "9223372036854775807", "0xffffffffffffffff"}
+
+// function names that only look like built-ins: they are passed through by name
+var lookalikes = []string{"ISNULL", "IsNull", "ISNOTNULL", "STRCAT", "IFF", "Iif", "TOLOWER", "ToUpper", "NOW"}
 var strLits = []string{"", "a", "A", "b", "Ab", "it's", `q"t`, `b\s`, "x y", "é"}
 
 func (g *ExprGen) pickTy() Ty { return Ty(g.Rng.Intn(4)) }
@@ -146,6 +149,9 @@ func (g *ExprGen) Gen(t Ty, depth int) *E {
 		case 11:
 			return Call([]string{"iff", "iif"}[r.Intn(2)], g.Gen(TBool, d), g.Gen(TBool, d), g.Gen(TBool, d))
 		case 12:
+			if r.Intn(3) == 0 {
+				return Call(lookalikes[r.Intn(len(lookalikes))], g.Gen(g.pickTy(), d))
+			}
 			return Call("fb", g.Gen(g.pickTy(), d))
 		default:
 			return g.leaf(TBool)
@@ -210,8 +216,12 @@ func (g *ExprGen) Gen(t Ty, depth int) *E {
 		if r.Intn(4) == 0 {
 			return Call("coalesce", g.Gen(TInt, d), g.Gen(TInt, d))
 		}
+		if r.Intn(5) == 0 {
+			// a string literal indexed by an integer expression (the index may be a binding)
+			return Idx(StrLit(strLits[1+r.Intn(len(strLits)-1)], r.Intn(2) == 0), g.Gen(TInt, d))
+		}
 		n := r.Intn(3)
-		e := Call([]string{"fi", "fi2", "abs"}[r.Intn(3)])
+		e := Call(append([]string{"fi", "fi2", "abs"}, lookalikes...)[r.Intn(3+len(lookalikes))])
 		for i := 0; i <= n; i++ {
 			e.Kids = append(e.Kids, g.Gen(g.pickTy(), d))
 		}
